@@ -17,6 +17,7 @@ import (
 )
 
 type Clause struct {
+	Key   string // loop key text for keyed invariants
 	Label string
 	Text  string
 	E     SExpr
@@ -33,6 +34,8 @@ type Contract struct {
 	Ensures    []Clause
 	Invariants map[int][]Clause
 	Decreases  map[int]Clause
+	KeyedInv   map[string][]Clause // invariants keyed by loop source text ("range x.y", "for i < n")
+	KeyedDec   map[string]Clause
 	Modifies   []SExpr
 	ModAll     bool
 	Lets       []LetDef
@@ -432,7 +435,21 @@ func parseClauses(c *Contract, d *directive) error {
 			case "invariant", "decreases":
 				n, err := strconv.Atoi(m[3])
 				if err != nil {
-					return fmt.Errorf("%s needs a loop ordinal: %q", m[1], cl)
+					key := strings.Join(strings.Fields(m[3]), " ")
+					if key == "" {
+						return fmt.Errorf("%s needs a loop ordinal or key: %q", m[1], cl)
+					}
+					if c.KeyedInv == nil {
+						c.KeyedInv = map[string][]Clause{}
+						c.KeyedDec = map[string]Clause{}
+					}
+					clause.Key = key
+					if m[1] == "invariant" {
+						c.KeyedInv[key] = append(c.KeyedInv[key], clause)
+					} else {
+						c.KeyedDec[key] = clause
+					}
+					continue
 				}
 				if m[1] == "invariant" {
 					c.Invariants[n] = append(c.Invariants[n], clause)
